@@ -157,6 +157,10 @@ func TypeOfKey(key string) reflect.Type {
 			{Name: "Relation", Type: reflect.TypeOf(ecs.Relation{}), Anonymous: true},
 			{Name: fmt.Sprintf("X%d", n), Type: fillerElems[n%len(fillerElems)]},
 		})
+	case 'B': // a large value type: more than one memory page per component
+		t = reflect.StructOf([]reflect.StructField{
+			{Name: fmt.Sprintf("B%d", n), Type: reflect.ArrayOf(513+n%7, reflect.TypeOf(uint64(0)))},
+		})
 	default:
 		panic("bad type key " + key)
 	}
@@ -214,3 +218,5 @@ func Pattern(k int, n int) []byte {
 	}
 	return b
 }
+
+func maskBits() int { return ecs.MaskTotalBits }
